@@ -803,6 +803,17 @@ def main():
     err = translate_np.translate_precompute(REPO, GEN, write)
     if err:
         notes.append(f"TRANSLATOR-IMP(pre_compute_distance): {err}")
+    import translate_sel
+    err = translate_sel.translate_select(REPO, GEN, write)
+    if err:
+        notes.append(f"TRANSLATOR-IMP(selection loops): {err}")
+    err = translate_sel.translate_learn(REPO, GEN, write)
+    if err:
+        notes.append(f"TRANSLATOR-IMP(learn): {err}")
+    import translate_meas
+    err = translate_meas.translate_measures(REPO, GEN, write)
+    if err:
+        notes.append(f"TRANSLATOR-IMP(measures): {err}")
     for n in notes:
         print(n)
     return 0
